@@ -213,6 +213,7 @@ fn colliding_keys_stay_isolated() {
         let mut script = vec!["Cache(key -> (key % 4, key + 1))".to_string()];
         // model: per index, the key that owns the slot and its value
         let mut owner: std::collections::HashMap<u64, (u64, u64)> = Default::default();
+        let mut owner_cost: std::collections::HashMap<u64, i64> = Default::default(); // cost of the last write applied to the slot
         let mut v = 100;
         for _ in 0..(6 + rng.below(20)) {
             let k = rng.below(12);
@@ -222,9 +223,9 @@ fn colliding_keys_stay_isolated() {
                 1 => { let r = c.get(&k).map(|x| *x.value()); script.push(format!("get({}) -> {:?}", k, r));
                        let want = owner.get(&idx).filter(|o| o.0 == k).map(|o| o.1);
                        if r != want { fail("colliding_keys_stay_isolated", "C18:store.get.conflict", &["C18", "C02"], "ShardedMap::get", script.join("; "), format!("{:?}", r), format!("{:?}", want)); let _ = c.close(); return; } }
-                _ => { v += 1; let r = c.insert(k, v, 1); script.push(format!("insert({}, {}) -> {}", k, v, r));
+                _ => { v += 1; let cost = 1 + rng.below(4) as i64; let r = c.insert(k, v, cost); script.push(format!("insert({}, {}, cost {}) -> {}", k, v, cost, r));
                        // a colliding resident key keeps the slot; only the owner (or an empty slot) is written
-                       if r && owner.get(&idx).map_or(true, |o| o.0 == k) { owner.insert(idx, (k, v)); } }
+                       if r && owner.get(&idx).map_or(true, |o| o.0 == k) { owner.insert(idx, (k, v)); owner_cost.insert(idx, cost); } }
             }
             c.wait().unwrap();
             for (idx, (ok, ov)) in &owner {
@@ -232,6 +233,24 @@ fn colliding_keys_stay_isolated() {
                 if got != Some(*ov) {
                     fail("colliding_keys_stay_isolated", "C02,C06,C18:cache.remove.delete-always-queued", &["C18", "C02", "C06"], "Cache::try_remove", script.join("; "),
                         format!("key {} (index {}) -> {:?}", ok, idx, got), format!("Some({}): operations on a colliding key must not touch it", ov));
+                    let _ = c.close(); return;
+                }
+            }
+            // C16 under collisions: the slot is charged what its owner's last applied write said, not what a refused colliding write said
+            for (idx, _) in &owner {
+                if c.policy.contains(idx) && Some(&c.policy.cost(idx)) != owner_cost.get(idx) {
+                    fail("colliding_keys_stay_isolated", "C16:cache.try_update.colliding-insert-does-not-recharge", &["C16"], "Cache::try_update", script.join("; "),
+                        format!("index {} charged {}", idx, c.policy.cost(idx)), format!("{:?} (cost of the last write applied to the resident key)", owner_cost.get(idx)));
+                    let _ = c.close(); return;
+                }
+            }
+            // C06 for entries told apart by their index hash: an index is resident iff the policy charges for it
+            for idx in 0..4u64 {
+                let resident = c.store.expiration(&idx).is_some();
+                let charged = c.policy.contains(&idx);
+                if resident != charged {
+                    fail("colliding_keys_stay_isolated", "C06:glue.delete.colliding-delete-keeps-the-charge", &["C06"], "CacheProcessor::handle_item", script.join("; "),
+                        format!("index {}: resident={} charged={}", idx, resident, charged), "resident == charged (an entry that stays resident stays charged, hence evictable)".into());
                     let _ = c.close(); return;
                 }
             }
